@@ -72,7 +72,7 @@ def mangle(string: int | str) -> str:
 
 
 def load_econtext(name):
-    return template("getname(KEY)", KEY=ast.Constant(name), mode="eval")
+    return template("__getname__(KEY)", KEY=ast.Constant(name), mode="eval")
 
 
 def store_econtext(name: object) -> ast.Subscript:
@@ -776,13 +776,13 @@ class NameTransform:
     Any odd name:
 
     >>> test('frobnitz')
-    "getname('frobnitz')"
+    "__getname__('frobnitz')"
 
     A 'builtin' name will first be looked up via ``get`` allowing fall
     back to the global builtin value:
 
     >>> test('foo')
-    "get('foo', foo)"
+    "__get__('foo', foo)"
 
     Internal names (with two leading underscores) are left alone:
 
@@ -829,7 +829,7 @@ class NameTransform:
         # the dynamic context, then fall back to the global.
         if name in self.builtins:
             return template(
-                "get(key, name)",
+                "__get__(key, name)",
                 mode="eval",
                 key=ast.Constant(name),
                 name=Builtin(name),
@@ -1235,8 +1235,8 @@ class Compiler:
         return functions
 
     def visit_Context(self, node):
-        return template("getname = econtext.get_name") + \
-            template("get = econtext.get") + \
+        return template("__getname__ = econtext.get_name") + \
+            template("__get__ = econtext.get") + \
             self.visit(node.node)
 
     def visit_Macro(self, node):
@@ -1950,7 +1950,7 @@ class Compiler:
                 append = template("_slots.appendleft(NAME)", NAME=fun)
 
                 assignment = [ast.Try(
-                    body=template("_slots = getname(KEY)", KEY=key),
+                    body=template("_slots = __getname__(KEY)", KEY=key),
                     handlers=[ast.ExceptHandler(body=assignment)],
                     finalbody=[],
                     orelse=append,
@@ -2123,7 +2123,7 @@ class Compiler:
     def _enter_assignment(self, names):
         for name, backup, global_ in self._backup_identifiers(names):
             yield from template(
-                "BACKUP = get(KEY, __marker)\n"
+                "BACKUP = __get__(KEY, __marker)\n"
                 "GLOBAL = rcontext.get(KEY, __marker)",
                 BACKUP=backup,
                 GLOBAL=global_,
